@@ -66,15 +66,15 @@ theorem exists_monotone (s : Scope) (ops : List ScopeOp) (n : String)
 
 /-- A registry reachable from the empty one by any sequence of `AddImport`s. -/
 def Reachable (r : Registry) : Prop :=
-  ∃ dst inPkg reqs, r = (Registry.mk dst inPkg []).addImports reqs
+  ∃ dst inPkg dname reqs, r = (Registry.mk dst inPkg [] dname).addImports reqs
 
 theorem reachable_inv {r : Registry} (h : Reachable r) : r.Inv := by
-  obtain ⟨dst, inPkg, reqs, rfl⟩ := h
+  obtain ⟨dst, inPkg, dname, reqs, rfl⟩ := h
   refine Registry.addImports_inv ⟨?_, ?_, ?_⟩ reqs <;> simp [Registry.paths, Registry.quals]
 
 theorem reachable_step {r : Registry} (h : Reachable r) (n p : String) : Reachable (r.addImport n p).1 := by
-  obtain ⟨dst, inPkg, reqs, rfl⟩ := h
-  refine ⟨dst, inPkg, reqs ++ [(n, p)], ?_⟩
+  obtain ⟨dst, inPkg, dname, reqs, rfl⟩ := h
+  refine ⟨dst, inPkg, dname, reqs ++ [(n, p)], ?_⟩
   have : ∀ (r : Registry) (a b : List (String × String)),
       r.addImports (a ++ b) = (r.addImports a).addImports b := by
     intro r a b
@@ -85,9 +85,12 @@ theorem reachable_step {r : Registry} (h : Reachable r) (n p : String) : Reachab
 
 /-- Adding an import returns the same qualifier (indeed the same entry) for the
 same path every time, whatever else is added in between and whatever package
-name accompanies the later request. -/
+name accompanies the later request – as long as that name does not make the
+request the destination package itself (the guard of `addImport` looks at the
+name since the mock may be written into a third package). -/
 theorem same_path_same_qualifier (r : Registry) (n path : String) (p : Pkg)
-    (h : (r.addImport n path).2 = some p) (between : List (String × String)) (n' : String) :
+    (h : (r.addImport n path).2 = some p) (between : List (String × String)) (n' : String)
+    (hn' : r.isSelf n' path = false) :
     (((r.addImport n path).1.addImports between).addImport n' path).2 = some p := by
   rcases Registry.addImport_result (r := r) n path with ⟨h0, _⟩ | ⟨q, hq, hfind⟩
   · rw [h0] at h; cases h
@@ -95,15 +98,21 @@ theorem same_path_same_qualifier (r : Registry) (n path : String) (p : Pkg)
     have hst := Registry.addImports_find?_stable hfind between
     have hcfg := Registry.addImports_cfg (r.addImport n path).1 between
     have hcfg0 := Registry.addImport_cfg r n path
-    have hnc := Registry.addImport_some_cond hq
     generalize ((r.addImport n path).1.addImports between) = r2 at hst hcfg
+    have hself : r2.isSelf n' path = r.isSelf n' path := by
+      unfold Registry.isSelf
+      rw [hcfg.1, hcfg.2.1, hcfg.2.2, hcfg0.1, hcfg0.2.1, hcfg0.2.2]
     unfold Registry.addImport
-    split
-    · rename_i hc
-      -- impossible: the configuration (destination, in-package flag) never changes
-      exact absurd ⟨hc.1.trans (hcfg.1.trans hcfg0.1), (hcfg.2.trans hcfg0.2) ▸ hc.2⟩ hnc
-    · simp [hst]
+    rw [hself, hn']
+    simp [hst]
 
+/-- The same request repeated (same name, same path) always returns the same entry. -/
+theorem same_request_same_qualifier (r : Registry) (n path : String) (p : Pkg)
+    (h : (r.addImport n path).2 = some p) (between : List (String × String)) :
+    (((r.addImport n path).1.addImports between).addImport n path).2 = some p := by
+  refine same_path_same_qualifier r n path p h between n ?_
+  have := Registry.addImport_some_cond h
+  simpa using this
 
 /-- Distinct paths get distinct qualifiers, even when package names coincide;
 no qualifier equals another import's. -/
@@ -130,9 +139,27 @@ theorem result_is_entry (r : Registry) (n path : String) (p : Pkg)
   · rw [h0] at h; cases h
   · rw [hq] at h; cases h; exact Registry.find?_some hfind
 
-/-- The destination package is never imported into itself. -/
+/-- The package the output file belongs to is never imported into it: no entry of the table satisfies the guard
+of `addImport`. -/
+theorem no_self_import_entry {r : Registry} (h : Reachable r) (p : Pkg) (hp : p ∈ r.imports) :
+    r.isSelf p.name p.path = false := (reachable_inv h).no_self p hp
+
+/-- The destination package is never imported into itself (registry created in-package). -/
 theorem no_self_import {r : Registry} (h : Reachable r) (hin : r.inPackage = true) :
-    r.dstPkgPath ∉ r.paths := (reachable_inv h).no_self hin
+    r.dstPkgPath ∉ r.paths := by
+  intro hmem
+  simp only [Registry.paths, List.mem_map] at hmem
+  obtain ⟨p, hp, hpath⟩ := hmem
+  have := no_self_import_entry h p hp
+  simp [Registry.isSelf, hpath, hin] at this
+
+/-- A mock written into a third, existing package: that package (found at the destination path under the name
+the file declares) is not imported either. -/
+theorem no_self_import_named {r : Registry} (h : Reachable r) (hn : r.dstPkgName ≠ "") (p : Pkg)
+    (hp : p ∈ r.imports) : ¬(p.path = r.dstPkgPath ∧ p.name = r.dstPkgName) := by
+  intro ⟨h1, h2⟩
+  have := no_self_import_entry h p hp
+  simp [Registry.isSelf, h1, h2, hn] at this
 
 /-- The import list is sorted by path (strictly, so each path once) and is a
 permutation of the table. -/
@@ -200,10 +227,16 @@ theorem machine_registry_reachable (s : St) (ops : List Op) (h : Reachable s.reg
 example : (Scope.mk ["r", "r1", "x"]).suggest "r" = "r2" := by decide
 example : ((Scope.mk ["a"]).allocResults [.alloc "a", .suggest "a", .alloc "a", .add "a3", .alloc "a"])
     = ["a1", "a2", "a4"] := by decide
-example : Reachable ((Registry.mk "d" true []).addImports [("http", "net/http"), ("http", "x/http")]) :=
-  ⟨"d", true, _, rfl⟩
-example : ((Registry.mk "d" true []).addImports [("http", "net/http"), ("http", "x/http"), ("http", "d")]).quals
+example : Reachable ((Registry.mk "d" true [] "").addImports [("http", "net/http"), ("http", "x/http")]) :=
+  ⟨"d", true, "", _, rfl⟩
+example : ((Registry.mk "d" true [] "").addImports [("http", "net/http"), ("http", "x/http"), ("http", "d")]).quals
     = ["http", "http0"] := by decide
+-- a mock of `api.Node` written into package `core` (not the source package): `core` itself is not imported, a
+-- same-directory `core_test` output (another declared name) does import it
+example : ((Registry.mk "m/core" false [] "core").addImports [("api", "m/api"), ("core", "m/core")]).paths
+    = ["m/api"] := by decide
+example : ((Registry.mk "m/core" false [] "core_test").addImports [("api", "m/api"), ("core", "m/core")]).paths
+    = ["m/api", "m/core"] := by decide
 
 /-- the allocator functions the models of `Gen/Scope.lean` and `Gen/Registry.lean` were written against are the current
 source's, statement by statement (`SuggestName`, `AllocateName`, `AddName`, `NameExists`,
